@@ -343,6 +343,67 @@ def search(seed, tier):
     return found
 
 
+def runtime_checks():
+    """exact observations at special points, every run: batches in which every row has the same special angle, points close to
+    (but off) the coordinate singularity, points on the negative x-axis for the conversions"""
+    import math
+    import torch
+    from neurodiffeq import operators as ops
+    bad = []
+    col = lambda *v: torch.tensor([[float(a)] for a in v], requires_grad=True)
+
+    def cmp(case, name, got, want, rtol=1e-9):
+        g, w = got.detach().reshape(-1), torch.as_tensor(want, dtype=torch.float64).reshape(-1)
+        if g.shape != w.shape or not torch.allclose(g, w, rtol=rtol, atol=rtol * float(1e-300 + w.abs().max())):
+            bad.append(dict(case=case, quantity=name, got=g.tolist(), want=w.tolist()))
+    try:
+        # u = x^2 - y^2 = r^2 sin^2(theta) cos(2 phi) is harmonic; every row at phi = 0 (where du/dphi vanishes in all rows)
+        for ph0 in (0.0, math.pi / 2, math.pi):
+            r, th, ph = col(1.0, 2.0, 0.5), col(0.7, 1.2, 2.0), col(ph0, ph0, ph0)
+            u = r ** 2 * torch.sin(th) ** 2 * torch.cos(2 * ph)
+            g, w = ops.spherical_laplacian(u, r, th, ph).detach().reshape(-1), torch.zeros(3)
+            if not torch.allclose(g, w, rtol=0, atol=1e-9):
+                bad.append(dict(case=f'every row at phi = {ph0}', quantity='spherical_laplacian of the harmonic x^2 - y^2', got=g.tolist(), want=[0, 0, 0]))
+            rho, phc, z = col(1.0, 2.0, 0.5), col(ph0, ph0, ph0), col(0.3, -0.4, 1.0)
+            uc = rho ** 2 * torch.cos(2 * phc) + 0 * z
+            g = ops.cylindrical_laplacian(uc, rho, phc, z).detach().reshape(-1)
+            if not torch.allclose(g, w, rtol=0, atol=1e-9):
+                bad.append(dict(case=f'every row at phi = {ph0}', quantity='cylindrical_laplacian of the harmonic x^2 - y^2', got=g.tolist(), want=[0, 0, 0]))
+            # vector field e_phi * rho (rigid rotation): curl = 2 e_z, div = 0, at every azimuth
+            cr = ops.cylindrical_curl(rho * 0, rho + 0 * phc, z * 0, rho, phc, z)
+            cmp(f'every row at phi = {ph0}', 'cylindrical_curl of the rigid rotation, z-component', cr[2], [2.0, 2.0, 2.0])
+        # small radii (off the singularity): u = r^2 cos(theta) = r z;  grad u = (2 r cos, -r sin, 0);  laplacian = 4 cos(theta)
+        r, th, ph = col(1e-3, 1e-5, 1e-7), col(0.7, 1.2, 2.0), col(0.4, 1.0, 5.0)
+        u = r ** 2 * torch.cos(th) + 0 * ph
+        gr = ops.spherical_grad(u, r, th, ph)
+        cmp('small radius', 'spherical_grad[r]', gr[0], (2 * r * torch.cos(th)).detach())
+        cmp('small radius', 'spherical_grad[theta]', gr[1], (-r * torch.sin(th)).detach())
+        cmp('small radius', 'spherical_laplacian', ops.spherical_laplacian(u, r, th, ph), (4 * torch.cos(th)).detach(), rtol=1e-7)
+        # e_phi-directed field u_phi = r sin(theta) (rigid rotation about z): curl = 2 e_z = (2 cos(theta), -2 sin(theta), 0)
+        cu = ops.spherical_curl(r * 0, r * 0, r * torch.sin(th) + 0 * ph, r, th, ph)
+        cmp('small radius', 'spherical_curl[r] of the rigid rotation', cu[0], (2 * torch.cos(th)).detach(), rtol=1e-7)
+        cmp('small radius', 'spherical_curl[theta] of the rigid rotation', cu[1], (-2 * torch.sin(th)).detach(), rtol=1e-7)
+        rho, phc, z = col(1e-3, 1e-5, 1e-7), col(0.4, 1.0, 5.0), col(0.3, -0.4, 1.0)
+        gc = ops.cylindrical_grad(rho ** 2 * torch.sin(phc) + z, rho, phc, z)
+        cmp('small radius', 'cylindrical_grad[phi]', gc[1], (rho * torch.cos(phc)).detach())
+        # conversions on the negative x-axis (y = 0 exactly) and other axis points
+        x, y, z = torch.tensor([[-2.0], [-0.5], [3.0], [0.0]]), torch.tensor([[0.0], [0.0], [0.0], [1.5]]), torch.tensor([[1.0], [0.0], [-2.0], [0.0]])
+        rh, phc, zc = ops.cartesian_to_cylindrical(x, y, z)
+        cmp('axis points', 'cartesian_to_cylindrical phi', phc, [math.pi, math.pi, 0.0, math.pi / 2], rtol=1e-15)
+        cmp('axis points', 'cartesian_to_cylindrical rho', rh, [2.0, 0.5, 3.0, 1.5], rtol=1e-15)
+        rs, ths, phs = ops.cartesian_to_spherical(x, y, z)
+        cmp('axis points', 'cartesian_to_spherical phi', phs, [math.pi, math.pi, 0.0, math.pi / 2], rtol=1e-15)
+        cmp('axis points', 'cartesian_to_spherical theta', ths, [math.atan2(2.0, 1.0), math.pi / 2, math.atan2(3.0, -2.0), math.pi / 2], rtol=1e-15)
+        for nm, fwd, back in (('cylindrical', ops.cartesian_to_cylindrical, ops.cylindrical_to_cartesian), ('spherical', ops.cartesian_to_spherical, ops.spherical_to_cartesian)):
+            xb, yb, zb = back(*fwd(x, y, z))
+            for cn, a, b in (('x', xb, x), ('y', yb, y), ('z', zb, z)):
+                if not torch.allclose(a, b, rtol=0, atol=1e-12):
+                    bad.append(dict(case='axis points', quantity=f'{nm} round trip, {cn}', got=a.reshape(-1).tolist(), want=b.reshape(-1).tolist()))
+    except Exception as e:
+        bad.append(dict(case='special-point observations', error=f'{type(e).__name__}: {e}'))
+    return bad
+
+
 def check(tier, seed):
     from ..calcprop import check_calc
     return check_calc(sys.modules[__name__], tier, seed)
